@@ -45,7 +45,9 @@ func (stream *senderStream) processRTP(now time.Time, header *rtp.Header, payloa
 		stream.lastRTPSN = header.SequenceNumber
 		// update only on first packet of a frame to ensure sender report does not get affected by
 		// processing delay of pushing a large frame which could span multiple packets
-		if header.Timestamp != stream.lastRTPTimeRTP {
+		// (the zero-value reference is not a frame: a first frame with timestamp 0 must
+		// still record when it was sent)
+		if stream.lastRTPTimeTime.IsZero() || header.Timestamp != stream.lastRTPTimeRTP {
 			stream.lastRTPTimeRTP = header.Timestamp
 			stream.lastRTPTimeTime = now
 		}
